@@ -298,6 +298,7 @@ class AffineDomain(Domain):
                 del s.d[k]
             s.d[("seg",)] = call.get("line")
             s._k = None
+            flow.age_env(s, "L%s" % call.get("line"))
         return [s]
 
     def assume(self, flow, s, cond, truth):
